@@ -4,6 +4,7 @@
 //! compiled into a normal build.
 
 pub mod dim;
+pub mod misc;
 pub mod prefix;
 pub mod qty;
 pub mod syntax;
